@@ -2,3 +2,4 @@
 pub mod chunked;
 pub mod deflate_enc;
 pub mod request;
+pub mod urlref;
